@@ -2193,6 +2193,13 @@ fn run_suggest(case: &Value) -> Value {
             }
         }
     }
+    // suggestions for a git-revision package may name its plain crates.io version
+    for p in &metadata.packages {
+        extra_versions.push(VetVersion {
+            semver: p.version.clone(),
+            git_rev: None,
+        });
+    }
     let it = make_interner(&metadata, &store, &extra_versions);
     let graph = resolver::DepGraph::new(&metadata, None, Some(&store.config.policy));
     let network = build_network(case);
